@@ -29,8 +29,8 @@ type (
 		Op   string
 		X, Y Expr
 	}
-	Cond  struct{ C, A, B Expr }
-	Call  struct {
+	Cond struct{ C, A, B Expr }
+	Call struct {
 		Fun  Expr
 		Args []Expr
 	}
